@@ -165,7 +165,7 @@ def g_fit(draw):
     if not shape3:
         X = X[:, 0, :]
     c.update(X=X, y=labels, em=gen.integer(draw, 1, 2), dask=gen.boolean(draw),
-             chunks=gen.composition(draw, n, max_parts=4))
+             chunks=gen.composition(draw, n, max_parts=4), isolate=gen.boolean(draw), order_seed=gen.integer(draw, 0, 999))
     return c
 
 
@@ -183,7 +183,17 @@ def c_fit(ctx, case):
         data = da.from_array(X, chunks=chunks)
     ctx.note(len(set(y.tolist())) >= 2 and list(y) != sorted(y), "jfa" if case["jfa"] else "isv",
              "dask" if case["dask"] else "numpy", "3d" if X.ndim == 3 else "2d")
-    a.fit_using_array(data, y)
+    if case["dask"]:
+        # tasks run one at a time in a generated order, with or without serialised copies of the machine (as on
+        # worker processes): whatever the tasks compute must reach the caller's machine
+        from vf import sched
+
+        with sched.owned("random", int(case.get("order_seed", 0)), bool(case.get("isolate", False))):
+            a.fit_using_array(data, y)
+        if case.get("isolate"):
+            ctx.event("fit_using_array on isolated tasks")
+    else:
+        a.fit_using_array(data, y)
     b.fit(b.ubm.transform(X), y)
     for name in ("U", "D") + (("V",) if case["jfa"] else ()):
         ga, gb = np.asarray(getattr(a, name), float), np.asarray(getattr(b, name), float)
